@@ -40,6 +40,8 @@ class Contract:
     note: str = ""
     may_raise_other: list = field(default_factory=list)  # exception classes allowed without an iff-condition
     lemmas: list = field(default_factory=list)
+    feas_timeout_ms: int = 3000    # budget of a path-feasibility query (unknown = feasible, which is sound)
+    probe: bool = False            # a unit that probes a known-finding region: its obligations are not counted as proof obligations
 
 
 class Registry:
